@@ -165,13 +165,26 @@ them (`codeOK`, Proofs/CursorPass) on the same bytes: `cur=1` when the code pass
 (pre_context, rule_length)` (action code; `pre_context < rule_length` as `Pass::readRules` demands) or `(0, 1)` (constraints) -/
 def stepCodeCur (ws : List String) : String :=
   match ws.map String.toNat?, ws.getLast? with
-  | [some c, some _, some pre, some rl, some _, some _, some _, some _, _], some h =>
+  | [some c, some pt, some pre, some rl, some cl, some ga, some fe, some us, _], some h =>
     match parseHexUnits 2 h with
     | none => "bad-op"
     | some b =>
       let ok := if c ≠ 0 then GrVerif.Pass.codeOK ⟨0, 1, false⟩ b.toList false
                 else decide (pre < rl) && GrVerif.Pass.codeOK ⟨pre, rl, false⟩ b.toList true
-      if ok then "cur=1" else "cur=0"
+      -- the two decoders of the same bytes - the loader model (`CodeLoad.load`, the subject of `accepted_action_passes_cursor_tests`) and the
+      -- pipeline model's `mkCode` (the subject of `codeOK`) - must produce the same instruction list and `deletes` flag
+      let same :=
+        -- (action code only: in constraint code the loader rewrites the operands of `CNTXT_ITEM`, and none of the opcodes the cursor
+        -- tests look at may occur there)
+        if c ≠ 0 then "-" else
+        match GrVerif.CodeLoad.load { preContext := pre, ruleLength := rl, classes := cl, glyfAttrs := ga, features := fe, numUser := us } (c ≠ 0) pt b.toList,
+              GrVerif.Pass.mkCode b.toList (c = 0) with
+        | .ok (.ok (some p)), some k =>
+          -- `mkCode` keeps the closing return, the loader model drops nothing either; constraint code has no `TEMP_COPY`
+          if p.instrs == k.instrs && (c ≠ 0 || p.delete == k.deletes) then "1" else "0"
+        | .ok (.ok (some _)), none => "0"
+        | _, _ => "-"
+      (if ok then "cur=1" else "cur=0") ++ " same=" ++ same
   | _, _ => "bad-op"
 
 /-- `glyphs <options> <chunk bits> <numGlyphsGraphics> <Gloc hex> <Glat hex> <gid,…> <key,…>` : `GlyphCache` -/
